@@ -15,6 +15,18 @@ CLAIMED = {
     text='Bounded symbolic model checking of the real code: eval::add, eval::sub and Compound::factor (with base_units, Unit::powers, every DerivedVtable.powers closure reached through the real statics, Powers::insert/get/len/iter) are executed from MIR on two compounds whose units are concrete per job (all 1-vs-1 pairs of the whole vocabulary found in the MIR, 2-vs-1 and 2-vs-2 over a 14-unit basis) and whose powers are solver variables in [-3,3]; on every path z3 proves accepted <=> equal base dimensions (reference dimension table written from the SI brochure) as a formula over the powers, so cancelling spellings are found by the solver; per unit Unit::powers(u,p) = p*dim_ref(u) for symbolic p; unit-less operands adopt the other unit in both orders. Counterexamples are replayed as queries on the native dev and release builds.',
     note='Trusted: MIR dump, mirsym + models (BTreeMap as association list ordered by the crate\'s own Ord for Unit run from MIR; num as Int/Real), spec/units.py, z3. Outside: >2 entries per side, offset units (C09), prefixes (C03).',
     design='§5 C02', technique='symbolic execution of rustc MIR + z3 linear integer arithmetic over symbolic unit powers, replay on native builds'),
+ 'C03': dict(
+    text='Bounded symbolic model checking of the real code: Compound::factor (apply_conversion, Rational::pow, prefix scaling, base_units) executed from MIR on an unbounded symbolic magnitude; units concrete per job (every unit to/from its base-SI expansion, pairs inside every dimension class, products of up to 3 (thorough 4) basis units, full 21-prefix sweeps), powers and prefixes solver variables; on every path z3 proves result == x*F(source)/F(target) with F the multiplicative extension of the units\' own declared scales and exact powers of ten, of which round trip, via-intermediate, linearity, prefix = power of ten and the power/product rules are corollaries; two- and three-step chains are also executed directly. Solver models are replayed as queries on the dev and release builds.',
+    note='Trusted: MIR dump, mirsym + models (num as Int/Real, BTreeMap association list), z3. Outside: >4 factors, offset scales (C09), that declared scales are the standard ones (C05).',
+    design='§5 C03', technique='symbolic execution of rustc MIR + z3 (linear real arithmetic in the magnitude, all-SAT forking over prefix*power), replay on native builds'),
+ 'C04': dict(
+    text='Bounded symbolic model checking of the real code: eval::mul, eval::div (Compound::mul, reconstruct, bases_match, inner_match, Compound::new) and eval::pow executed from the dev and release MIR on two quantities with unbounded symbolic magnitudes, concrete units per job and symbolic powers; for whatever units reconstruct chooses z3 proves v*F(R) == SI product/quotient, dim(R) == dim(A) +/- dim(B) as a formula over the powers, no zero-power entry, DivideByZero exactly for a zero divisor; for powers value x^n, SI value (x*F(U))^n, dimension n*dim(U), zero power dimensionless, 0^negative an error, non-integer / unit-carrying exponents refused. Models replayed as queries on both builds.',
+    note='Trusted: MIR dump, mirsym + models, z3 (nonlinear real arithmetic for products of magnitudes), spec/units.py for dimensions. Outside: >2 entries per operand, offset units, |exponent| > 4.',
+    design='§5 C04', technique='symbolic execution of rustc MIR (dev+release) + z3 nonlinear real / linear integer arithmetic, replay on native builds'),
+ 'C09': dict(
+    text='Bounded symbolic model checking of the real code: Compound::factor with the real temperature statics (Offset conversion, Fahrenheit closures) executed from MIR on an unbounded symbolic magnitude: all ordered pairs of K/degC/degF (prefixes symbolic) proved equal to K = C + 273.15, C = (F-32)*5/9; all chains of length <= 4 executed and proved equal to the direct conversion and exactly invertible; a scale with power -3..3 other than one, or multiplied with one or two companion units with symbolic powers, is proved to be refused or converted as a pure interval (never adding the zero point). Models replayed as queries on both builds.',
+    note='Trusted: MIR dump, mirsym + models, z3, spec/units.py temperature constants. Outside: companions beyond the listed five, temperature addition.',
+    design='§5 C09', technique='symbolic execution of rustc MIR + z3 linear real arithmetic, replay on native builds'),
 }
 NOT_YET = {}
 NA = {
